@@ -19,6 +19,7 @@ were observed on the real code through harness/c17 / harness/c18 before the repa
 known_findings.d/C17.jsonl and C18.jsonl).
 -/
 import TinyVerif.Proofs.RingInv
+import TinyVerif.Gen.RingBorrow
 namespace TinyVerif.Ring
 
 /-- the state reached from a fresh ring by an arbitrary interleaving `ops` -/
@@ -185,6 +186,25 @@ theorem cq_content_held {k kc c cc : Nat} (p : Params k kc c cc) (flags : Nat) (
           Out.cqe ((run .fixed (step .fixed s .reap).1 later).1.cqMem e'.slot))).2 = _
     rw [b2, a2, List.getLast?_concat]
     simp only [hm, hs]
+
+/-- **borrow_contract_holds** — the ASSUMPTION of `cq_content_held` (and of C18's split-reap theorems) that is not
+behaviour but type: `later` contains no `get_next_cqe` although the caller still reads through the reference, i.e. a
+completion reference is dead at the next `get_next_cqe` call, there is at most one, no other `&mut` ring method runs
+while it lives, and it does not outlive the ring.  Extracted fact: the borrow checker rejects every program of
+harness/c17/borrow-probes that violates one of these (regenerated on every run into Gen/RingBorrow.lean). -/
+theorem borrow_contract_holds : genBorrowContract.holds = true := by decide
+
+/-- why the contract is needed — with TWO outstanding references the content guarantee FAILS on the current code: ring
+of 2 completion entries, the caller keeps the reference to completion 1 (slot 0) across the `get_next_cqe` call that
+returns completion 2; that call releases slot 0, the kernel's third completion lands there: the first reference now
+shows 3 (completion 1 is lost, 3 will be seen twice).  This is the history the borrow `&mut self` rules out. -/
+theorem two_references_break_content :
+    (run .fixed (init 0 1 1 0 0) [.post [1, 2], .reap, .reap, .post [3]]).2 = [.posted 2, .cqe 1, .cqe 2, .posted 1] ∧
+    (run .fixed (init 0 1 1 0 0) [.post [1, 2], .reap, .reap, .post [3]]).1.reaped = [⟨0, 1⟩, ⟨1, 2⟩] ∧
+    (run .fixed (init 0 1 1 0 0) [.post [1, 2], .reap, .reap, .post [3]]).1.cqMem 0 = 3 ∧
+    -- with the single reference the API allows (completion 1 read before the next call) the post finds no room in slot 0
+    (run .fixed (init 0 1 1 0 0) [.post [1, 2], .reap, .post [3], .reread]).2 = [.posted 2, .cqe 1, .posted 0, .cqe 1] := by
+  decide
 
 /-- the kernel-visible completion head lags behind what the application reaped by at most one entry: the one
 whose reference may still be alive (`release_pending`) -/
